@@ -136,6 +136,11 @@ def _agent_loop(rf, wf):
                     if rq.get("as_variables"):
                         # a caller may pass Variable objects in a list of its own ...
                         vs = [p.Variable(v) for v in vs]
+                    if rq.get("var_class"):
+                        # ... or instances of a Variable subclass, the ones its expression uses
+                        from dst.usertypes import USER_CLASSES
+                        vcls = USER_CLASSES[rq["var_class"]]
+                        vs = [vcls(v.name if isinstance(v, p.Variable) else v) for v in vs]
                     if rq.get("with_context"):
                         from dst.usertypes import CompiledWithContext
                         compiled[rq["c"]] = CompiledWithContext(o, vs)
